@@ -7,7 +7,7 @@ using namespace vk;
 static bool safech(unsigned char c) { return isalnum(c) || strchr(".@%+/=:-[]", c) != nullptr; }
 static std::string ns(const std::string &s) { return std::to_string(s.size()) + ":" + s + ","; }
 
-struct Case { std::string name, daemon, input; std::map<std::string, std::string> env; std::string sender; std::vector<std::string> rcpts; std::string body, body2; bool has_body2 = false; bool wellformed = true; int qstatus = 0; std::string qtext; bool qcrash = false;
+struct Case { std::string name, daemon, input; std::map<std::string, std::string> env; std::string sender; std::vector<std::string> rcpts; std::string body, body2; bool has_body2 = false; std::string morercpt; bool has_morercpt = false; std::vector<int> want_codes; bool wellformed = true; int qstatus = 0; std::string qtext; bool qcrash = false;
               std::vector<std::string> bodies; std::vector<int> expect_multi; /* per message: 0 ack, 5 permanent */ int expect_class = 0; /* 0 success, 4 temporary, 5 permanent, -1 protocol violation (no acknowledgement at all) */ int databytes = 0; bool realqueue = false; bool cut = false; };
 
 static std::string smtp_session(const std::string &helo, const std::string &sender, const std::vector<std::string> &rc, const std::string &body_lf, bool quit = true) {
@@ -80,6 +80,15 @@ static std::vector<Case> make_cases(const Config &cfg) {
             if (status == 0) { c.body = o; c.body2 = o2; c.has_body2 = amb; c.expect_class = 0; } else { c.body = ""; c.expect_class = 4; c.wellformed = false; } }
           v.push_back(c);
           int i = n - 1; while (i >= 0 && ++idx[i] == 4) { idx[i] = 0; i--; } if (i < 0) break; } }
+    } else if (fam == "morercpt") {
+      // C08: the compiled extra recipient-host list, built by the real qmail-newmrh from a source with mixed case, a wildcard, trailing
+      // blanks, a comment and no final newline (and from an empty source); then one SMTP session asks for a list of recipients
+      if (std::string(d) != "smtpd") continue;
+      struct R { const char *addr; int with_list, with_empty; };
+      static const R rs[] = {{"r@a.example", 250, 250}, {"r@extra.example", 250, 553}, {"r@EXTRA.EXAMPLE", 250, 553}, {"r@x.wild.example", 250, 553}, {"r@wild.example", 553, 553}, {"r@third.example", 250, 553},
+                             {"r@comment.example", 553, 553}, {"r@xextra.example", 553, 553}, {"r@sub.extra.example", 553, 553}, {"r@y.x.Wild.Example", 250, 553}, {"r", 250, 250}, {"r@a.example.", 553, 553}, {"r@other.example", 553, 553}};
+      for (int variant = 0; variant < 2; variant++) { Case c = base(d); c.name = std::string("smtpd with morercpthosts.cdb built by qmail-newmrh from ") + (variant ? "an empty source" : "a mixed source"); c.morercpt = variant ? std::string("") : std::string("Extra.Example\n.Wild.Example \t\n# comment.example\n#comment.example\nthird.example");
+        c.input = "HELO x\r\nMAIL FROM:<s@src.example>\r\n"; for (auto &r : rs) { c.input += std::string("RCPT TO:<") + r.addr + ">\r\n"; c.want_codes.push_back(variant ? r.with_empty : r.with_list); } c.input += "QUIT\r\n"; c.has_morercpt = true; v.push_back(c); }
     } else if (fam == "multi") {
       // several messages on one QMTP connection with a size limit: the limit applies to each message separately
       if (std::string(d) != "qmtpd") continue;
@@ -113,8 +122,22 @@ struct C07 : Scenario {
     if (!c->realqueue) w.exectab["/var/qmail/bin/qmail-queue"] = "@queue";
     if (c->databytes > 0) k.put_file("/var/qmail/control/databytes", std::to_string(c->databytes) + "\n");
     std::vector<std::string> env; for (auto &e : c->env) env.push_back(e.first + "=" + e.second); if (c->databytes < 0) env.push_back("DATABYTES=" + std::to_string(-c->databytes));
+    if (c->has_morercpt) {
+      k.put_file("/var/qmail/control/rcpthosts", "a.example\n"); k.put_file("/var/qmail/control/morercpthosts", c->morercpt);
+      std::map<int, int> nf; nf[0] = QmailEnv::nullfd(w); nf[1] = QmailEnv::nullfd(w); nf[2] = QmailEnv::nullfd(w);
+      newmrhpid = w.spawn("/var/qmail/bin/qmail-newmrh", {"qmail-newmrh"}, nf, 0, 0, "/"); saved_env = env; return;   // the daemon starts when the list is compiled
+    }
+    start_daemon(w, env);
+  }
+  int newmrhpid = 0; std::vector<std::string> saved_env;
+  void start_daemon(World &w, const std::vector<std::string> &env) {
     std::map<int, int> fds; fds[0] = QmailEnv::preloaded_pipe(w, c->input); fds[1] = QmailEnv::sink(w, &out); fds[2] = QmailEnv::nullfd(w);
     dpid = w.spawn("/var/qmail/bin/qmail-" + c->daemon, {"qmail-" + c->daemon}, fds, UID_QMAILD, GID_NOFILES, "/", env);
+  }
+  bool on_quiescent(World &w) override {
+    if (newmrhpid && !dpid) { Proc *np = nullptr; for (auto &pp : w.procs) if (pp && pp->vpid == newmrhpid) np = pp.get();
+      if (np && (np->st == P_ZOMBIE || np->st == P_REAPED)) { if (np->status != 0 || !w.k.exists("/var/qmail/control/morercpthosts.cdb")) { w.violation("C08:qmail-newmrh-failed", "qmail-newmrh did not produce control/morercpthosts.cdb (status " + std::to_string(np->status) + ")"); return false; } start_daemon(w, saved_env); return true; } }
+    return false;
   }
   int faults_seen = 0;
   void alternatives(World &w, Proc &p, const Req &r, std::vector<Alt> &a) override {
@@ -178,6 +201,14 @@ struct C07 : Scenario {
     w.counters["multi_message_connections"]++; w.outcome_hash = fnvs(fnvs(5, c->name), o); w.description = c->name + " -> " + std::string(letters.begin(), letters.end());
   }
   void at_end(World &w) override {
+    if (c->has_morercpt) {
+      if (!out) { w.violation("C08:no-session", "the SMTP daemon was never started"); return; }
+      std::vector<int> codes; { const std::string &oo = out->data; size_t i = 0; while (i < oo.size()) { size_t e = oo.find("\r\n", i); if (e == std::string::npos) break; if (e >= i + 4 && oo[i + 3] == ' ') codes.push_back(atoi(oo.substr(i, 3).c_str())); i = e + 2; } }
+      // greeting, HELO, MAIL, then one reply per RCPT, then QUIT
+      if (codes.size() != c->want_codes.size() + 4) { w.soft_violation("C08:" + c->name, c->name + ": " + std::to_string(codes.size()) + " replies for " + std::to_string(c->want_codes.size() + 4) + " commands: [" + esc(out->data, 300) + "]"); return; }
+      for (size_t i = 0; i < c->want_codes.size(); i++) if (codes[3 + i] != c->want_codes[i]) { w.soft_violation("C08:" + c->name + ":rcpt" + std::to_string(i + 1), c->name + ": recipient number " + std::to_string(i + 1) + " of the session was answered " + std::to_string(codes[3 + i]) + ", the documented recipient-host rule gives " + std::to_string(c->want_codes[i]) + " (session: " + esc(c->input, 400) + ")"); return; }
+      w.counters["morercpthosts_recipients_checked"] += c->want_codes.size(); w.outcome_hash = fnvs(9, out->data); w.description = c->name; return;
+    }
     const std::string &o = out->data; std::string key = "C07:" + c->name;
     Proc *dp = nullptr; for (auto &pp : w.procs) if (pp && pp->vpid == dpid) dp = pp.get();
     w.counters["sessions"]++;
